@@ -58,14 +58,16 @@ def build_and_test(run_tests=True):
         return False, 'build failed: %s\n%s' % (bad, p.stdout[-1500:])
     if not run_tests:
         return True, 'built'
-    t = sh('flock /tmp/vs_ctest.lock ctest --test-dir %s/_build -j4 --timeout 900' % WT)   # lanes share fixed test ports
+    # a private network namespace per run: the CLI tests use fixed ports that other lanes / agents may hold
+    netns = "unshare -rn sh -c 'ip link set lo up 2>/dev/null; %s'" if sh("unshare -rn true").returncode == 0 else "flock /tmp/vs_ctest.lock sh -c '%s'"
+    t = sh(netns % ('ctest --test-dir %s/_build -j4 --timeout 900' % WT))
     fails = [f for f in re.findall(r'^\s*\d+ - (\S+) \(', t.stdout, re.M) if f != 'EphemeralNet.CLIFetchDir']
     m = re.search(r'(\d+)% tests passed, (\d+) tests failed out of (\d+)', t.stdout)
     # tests that start daemons on fixed ports are flaky on a shared, loaded machine: re-run each failed test alone
     still = []
     for f in fails:
         for attempt in range(3):
-            r = sh('flock /tmp/vs_ctest.lock ctest --test-dir %s/_build -R "^%s$" --timeout 900' % (WT, re.escape(f)))
+            r = sh(netns % ('ctest --test-dir %s/_build -R "^%s$" --timeout 900' % (WT, re.escape(f))))
             if '100% tests passed' in r.stdout:
                 break
             time.sleep(3)
